@@ -371,14 +371,13 @@ def run(tier, seed):
     step = max(1, len(cases) // 24)
     for j, k0 in enumerate(range(0, len(cases), step)):
         c = cases[k0]
+        if c["n"] < 1:
+            continue
         bad = dict(c)
         mode = j % 3 if meta[k0][0] == "export" else 0
-        if mode == 0:      # one more T gate in the program
-            bad["b"] = c["b"] + [ins("q", {"q": "t", "p": [], "w": [1], "mods": []})]
-            want = {"not-equal-up-to-phase", "not-diagonal-in-eigenbasis"} if c["rel"] == "phase" else None
-            if c["rel"] == "diag":
-                bad["b"] = c["b"] + [ins("q", {"q": "h", "p": [], "w": [1], "mods": []})]
-                want = {"not-diagonal-in-eigenbasis"}
+        if mode == 0:      # one more Hadamard in the program (not a phase on any measurement record, not diagonal)
+            bad["b"] = c["b"] + [ins("q", {"q": "h", "p": [], "w": [1], "mods": []})]
+            want = {"not-equal-up-to-phase"} if c["rel"] == "phase" else {"not-diagonal-in-eigenbasis"}
         elif mode == 1:    # a measurement moved to another qubit / dropped
             bad["mp"] = c["mp"][:-1] if c["mp"] else [[0, 0]]
             want = {"measured-register"}
